@@ -21,7 +21,7 @@ Python behaviours represented as data:
   `UnicodeEncodeError`; `fuel` never occurs with the fuel `parse` supplies — theorem `C15_total`).
 * `str.upper()` on a type name → ASCII upper-casing plus the two non-ASCII letters whose upper case is an ASCII letter (`ı`→`I`, `ſ`→`S`).
 
-Two recorded defects of the unchanged code are carried behind `Defects` (DESIGN §4 "Model variants"):
+Two former defects (repaired in /repo; kept as regression variants) are carried behind `Defects` (DESIGN §4 "Model variants"):
 * `quotePrintable` — `"` (34) is a member of `ItemStr.printable_chars`, so it is printed *inside* a quoted run
 * `jis8Unicode`    — `ItemJ.to_sml` prints `hex(ord(ch))` of the **decoded** character instead of the code of the JIS-8 byte
 -/
@@ -35,9 +35,9 @@ structure Defects where
   jis8Unicode : Bool
 deriving DecidableEq, Repr
 
-/-- the repaired printing (proposals C15-quote, C15-jis8) -/
+/-- the code since fix commits b87686c (quote) and 34e8c21 (JIS-8) -/
 def Defects.none : Defects := ⟨false, false⟩
-/-- the code as it is at the pinned HEAD -/
+/-- the code before those two fixes (kept as a regression variant) -/
 def Defects.current : Defects := ⟨true, true⟩
 
 /-! ## character classes (`SMLParser.whitespaces / operators / literal_delimiter`, `ItemStr.printable_chars`) -/
